@@ -196,3 +196,11 @@ PROPERTY_ASSUMPTIONS["C19"] = [
 M("C19", "c19_add_delete_slip", ["Wallet::add_slip", "Wallet::delete_slip"], "wallets with 0..=2 slips in every layout; the slip added / deleted fully symbolic (possibly already present / absent)", covers=10)
 M("C19", "c19_find_slips_for_staking", ["Wallet::find_slips_for_staking", "WalletSlip::is_staking_slip_unlocked", "WalletSlip::to_slip"], "wallets with 1..=2 slips (thorough 3) in every unspent/staking layout; staking amount, unlock heights symbolic; Ok and Err paths", covers=5)
 M("C19", "c19_generate_slips", ["Wallet::generate_slips"], "wallets with 1..=2 unspent slips (thorough 3); requested amount, latest block id, genesis period symbolic; conservation of inputs/change in u128", covers=2)
+
+# ============================================================================== C17
+PROPERTY_ASSUMPTIONS["C17"] = [
+    "one step: Peer::handle_handshake_response from an arbitrary Peer state and response; the signature check crypto::verify is a free predicate V (consistent: asked once per step), sign / I/O / configuration / version comparison are free; every poll Ready",
+    "interleavings of several connections, replay / reflection across connections (the acceptor signs the challenge carried in the response, an attacker-chosen value), Network::handle_handshake_response and the peer collection are outside this revision's claim",
+]
+M("C17", "c17_response_step", ["saito_core::core::consensus::peers::peer::Peer::handle_handshake_response (async body)", "Peer::mark_as_disconnected", "Version::is_set / is_same_minor_version"],
+  "every path of the body (about 200) from a symbolic Peer: status in {Disconnected, Connecting, Connected}, challenge / key / static config present or absent; five clauses per returning path", covers=1)
